@@ -152,6 +152,9 @@ structure Codec where
   decHeader : Bytes → Option (Header × Bytes)
   encMember : Member → Bytes
   decMember : Bytes → Option (Member × Bytes)
+  /-- bytes of the `Limit` budget lost when `encode_member` fails with `rem` bytes of space
+      (`send_message` truncates the vector but the limit is not given back) -/
+  failUse : Member → Nat → Nat
 
 /-- Everything a Foca instance is generic in. `debug` = built with debug assertions / overflow checks. -/
 structure Env where
